@@ -89,6 +89,8 @@ def kernel_work(P, item):
         it.run([x, fold, cnt, dl, D, cfg["tsamp"], cfg["period"], cfg["accel"], N, nsamps, nchans, nbins, nints, nsubs, index])
         return dict(x=x, fold=fold, cnt=cnt, dv=dv, idx=idx)
 
+    witk = [2]
+
     def on_path(ctx, o):
         Ctx.cur = ctx
         P.reached += 1
@@ -116,6 +118,12 @@ def kernel_work(P, item):
         if ctx.check(z3.Or(conds)) == z3.unsat:
             for n_, _ in viol:
                 P.obligation(f"{label}/{n_}", "holds")
+            if witk[0] > 0 and ctx.check() == z3.sat:
+                witk[0] -= 1
+                m = ctx.solver.model()
+                ev = lambda t: m.eval(t, model_completion=True).as_long()
+                P.witness("c11", dict(kind="kernel", cfg=cfg, index=ev(idx), delays=[ev(d) for d in dv], data=[ev(e) for e in xs]),
+                          f"fold-kernel-witness-{abs(hash(label)) % 100000}", label)
         else:
             for n_, c in viol:
                 if ctx.check(c) == z3.unsat:
@@ -206,6 +214,8 @@ def stream_work(P, item):
         out.update(fd=fd, calls=list(FoldRec.calls), N=N, D=D)
         return out
 
+    wits = [2]
+
     def on_path(ctx, o):
         Ctx.cur = ctx
         P.reached += 1
@@ -243,6 +253,14 @@ def stream_work(P, item):
                 viol.append(("fold_ar divided once by count_ar", z3.BoolVal(not (len(dv) == 0 and getattr(calls[0]["fold"], "div_by", None) is calls[0]["count"]))))
                 sz = calls[0]["fold"].length
                 viol.append(("accumulator sizes", z3.Or(sz != nbins * nints * min(nbands, nchans), calls[0]["count"].length != sz)))
+        if wits[0] > 0 and viol and ctx.check(z3.Or([c for _, c in viol])) == z3.unsat and ctx.check() == z3.sat:
+            wits[0] -= 1
+            m = ctx.solver.model()
+            ev = lambda t: m.eval(t, model_completion=True).as_long()
+            wp = dict(kind="stream", nbits=nbits, nchans=nchans, splits=[ev(x) for x in v["ns"]], gulp=ev(v["gulp"]), start=ev(v["start"]), nsamps=ev(v["nsamps"]),
+                      delays=[ev(d) for d in v["delays"]], nbins=nbins, nints=nints, nbands=nbands)
+            if sum(wp["splits"]) <= 5000:
+                P.witness("c11", wp, f"fold-stream-witness-{nbits}-{nchans}-{nfiles}-{wits[0]}", label)
         for n_, c in viol:
             if ctx.check(c) == z3.unsat:
                 P.obligation(f"{label}/{n_}", "holds")
